@@ -131,7 +131,7 @@ func simC14pcap(c *sim.Ctx) {
 		case 0:
 			sec = 1_600_000_000 + int64(c.Draw(100_000_000))
 		case 1:
-			sec = 1 + int64(c.Draw(1000)) // near the epoch (never the zero time.Time)
+			sec = int64(c.Draw(1000)) // at and near the epoch (time.Unix(0, 0) is not the zero time.Time)
 		case 2:
 			sec = 0xFFFFFFFF - int64(c.Draw(1000)) // near the end of the 32-bit range
 		case 3:
@@ -140,8 +140,17 @@ func simC14pcap(c *sim.Ctx) {
 		ns := int64(c.Draw(1_000_000_000))
 		if c.Chance(100) {
 			ns = 999_999_999
+		} else if c.Chance(150) {
+			ns = 0 // a whole second: every sub-second field of the record is zero
 		}
 		p.ci.Timestamp = time.Unix(sec, ns).UTC()
+		if c.Chance(20) {
+			// the record whose 16 header bytes are all zero: nothing captured of
+			// an empty packet at the epoch
+			p = pkt{data: []byte{}}
+			p.ci.Timestamp = time.Unix(0, 0).UTC()
+			c.Fault("all_zero_record_header")
+		}
 		if err := w.WritePacket(p.ci, p.data); err != nil {
 			c.Fail("roundtrip", "write-error", "WritePacket", "%v", err)
 		}
